@@ -65,7 +65,7 @@ RULE = ('programs = grammar texts, each given to the four routes A/B/C/D (fresh 
         'any of the four artefacts -- bootstrap.py source, GRAMMAR_MODEL, compiled grammar file, regenerated source -- '
         'placed in each of 25 slots of a small grammar (directive name/value, decorator, definition operator, parameter, '
         'prefix/infix/postfix, brace suffix, terminator, constant, ...); literals not shared by all four artefacts get '
-        'the complete sweep, the shared ones a 1/6 sample (quick) or all (thorough); (6) texts of (1)-(3) refused only '
+        'the complete sweep, the shared ones a 1/8 sample (quick) or all (thorough); (6) texts of (1)-(3) refused only '
         'for calling undefined rules are re-run completed with stub rules; (7) direct-start fragments for the 7 '
         'productions no grammar text reaches. '
         'non-trivial = a text ACCEPTED by at least one route (so models were built and compared); distinct by text')
@@ -77,9 +77,10 @@ ASSUMPTIONS = [
     "grammar's @@parseinfo :: True) while C and D carry it; the parseinfo facet is recorded in counters "
     '(parseinfo_present:<route>, parseinfo_equal_among_carriers) and is the only difference between the models',
     'accept/reject: a text is accepted when the route returns a model; ParseException and any other exception are '
-    'both "not accepted" (a route that crashes where another rejects -- e.g. the KeyError of an undefined rule under '
-    '{..}+ escaping from generated parsers but turned into FailedRef by Call._parse in models -- is counted in '
-    'nonaccept_kind_differs, not alarmed); error classes and positions are counted, not compared',
+    'both "not accepted" (a route that crashes where another rejects is counted in nonaccept_kind_differs and noted, '
+    'not alarmed: before /repo commit 72a22ea the KeyError of an undefined rule under {..}+ escaped from the generated '
+    'parsers A/D but was turned into FailedRef by Call._parse in the models B/C; since then all four raise it); '
+    'error classes and positions are counted, not compared',
     'route A is TatSuParserGenerator (what tatsu.compile instantiates), called directly to stay clear of the compile '
     'cache; a sample of texts also goes through tatsu.compile itself (api_sample)',
     'route D uses the model of route C as the input of the code generator (tatsu.to_python_sourcecode(grammar file))',
@@ -96,22 +97,23 @@ ASSUMPTIONS = [
 _COVER_FLOOR = 5
 FLOORS = {
     'quick': dict({f'cover:{r}': _COVER_FLOOR for r in RULES},
-                  **{'programs': 1000, 'accepted_all': 400, 'rejected_all': 500, 'origin:mutant': 300, 'origin:gen': 300,
-                     'origin:focused': 100, 'origin:corpus': 150, 'origin:sweep': 150, 'fragments': 300,
+                  **{'programs': 1000, 'accepted_all': 400, 'rejected_all': 500, 'origin:mutant': 300, 'origin:gen': 220,
+                     'origin:focused': 100, 'origin:corpus': 200, 'origin:sweep': 120, 'fragments': 300,
                      'grammar_rules_known': 16, 'surface_forms_accepted': 60, 'vocabulary_common': 40,
                      'probe_transparency_checked': 30, 'api_sample': 80, 'whole_files': 1}),
     'thorough': dict({f'cover:{r}': 10 * _COVER_FLOOR for r in RULES},
-                     **{'programs': 12000, 'accepted_all': 5000, 'rejected_all': 3500, 'origin:mutant': 4000,
-                        'origin:gen': 5000, 'grammar_rules_known': 64, 'whole_files': 2,
-                        'surface_forms_accepted': 150}),
+                     **{'programs': 12000, 'accepted_all': 4000, 'rejected_all': 6000, 'origin:mutant': 4000,
+                        'origin:gen': 4800, 'origin:sweep': 1100, 'fragments': 600, 'grammar_rules_known': 64,
+                        'whole_files': 3, 'surface_forms_accepted': 60, 'vocabulary_common': 40,
+                        'probe_transparency_checked': 400, 'api_sample': 1000}),
 }
 SHARD_TIMEOUT = {'quick': 5400, 'thorough': 14400}
 
 NSHARDS = {'quick': 16, 'thorough': 64}
-N_GEN = {'quick': 34, 'thorough': 150}          # random grammars per shard
-MUT_PER = {'quick': 0.55, 'thorough': 0.6}      # mutants per base text (expected)
+N_GEN = {'quick': 28, 'thorough': 150}          # random grammars per shard
+MUT_PER = {'quick': 0.5, 'thorough': 0.6}      # mutants per base text (expected)
 MAX_CORPUS_LEN = {'quick': 700, 'thorough': 1600}
-SWEEP_THIN = {'quick': 6, 'thorough': 1}        # 1/n of the (common token x slot) sweep
+SWEEP_THIN = {'quick': 8, 'thorough': 1}        # 1/n of the (common token x slot) sweep
 WHOLE_FILES = {'quick': ['tatsu/_tatsu.ebnf'],
                'thorough': ['tatsu/_tatsu.ebnf', 'grammar/pretty.tatsu', 'grammar/tatsu.ebnf']}
 
@@ -126,7 +128,7 @@ def plan(tier, seed):
     for j, fn in enumerate(WHOLE_FILES[tier]):
         d = shards[(k - 1 - j) % k]
         d['whole'].append(fn)
-        d['n_gen'] = max(5, d['n_gen'] - (26 if tier == 'quick' else 40))
+        d['n_gen'] = max(5, d['n_gen'] - (22 if tier == 'quick' else 40))
     return shards
 
 
@@ -140,30 +142,33 @@ def partition(values):
     return '|'.join(sorted(''.join(g) for g in groups.values()))
 
 
-def json_diff_path(a, b, path=''):
-    """first difference between two JSON values: path with list indices dropped and node classes spelled out"""
-    if type(a) is not type(b):
-        return f'{path}: {_cls(a)} != {_cls(b)}'
+def json_diff_path(a, b, path='', owner=''):
+    """first difference between two JSON values -> (path, tail): `path` has list indices dropped and node classes
+    spelled out (for the description); `tail` names the mechanism: 'ClassA != ClassB' for a node of another class,
+    '<Class>.<field>: <what differs>' for a differing attribute"""
+    if type(a) is not type(b) or (isinstance(a, dict) and a.get('__class__') != b.get('__class__')):
+        d = f'{_cls(a)} != {_cls(b)}'
+        both_nodes = isinstance(a, dict) and isinstance(b, dict) and a.get('__class__') and b.get('__class__')
+        return f'{path}: {d}', (d if both_nodes else f'{owner}: {d}')
     if isinstance(a, dict):
-        ca, cb = a.get('__class__'), b.get('__class__')
-        if ca != cb:
-            return f'{path}: {ca} != {cb}'
+        ca = a.get('__class__')
         here = f'{path}/{ca}' if ca else path
         for k in sorted(set(a) | set(b)):
+            own = f'{ca}.{k}' if ca else (f'{owner}.{k}' if owner else k)
             if k not in a or k not in b:
-                return f'{here}.{k}: missing on one side'
+                return f'{here}.{k}: missing on one side', f'{own}: missing on one side'
             if a[k] != b[k]:
-                return json_diff_path(a[k], b[k], f'{here}.{k}')
+                return json_diff_path(a[k], b[k], f'{here}.{k}', own)
         return None
     if isinstance(a, list):
         if len(a) != len(b):
-            return f'{path}[]: length differs'
+            return f'{path}[]: length differs', f'{owner}[]: length differs'
         for x, y in zip(a, b):
             if x != y:
-                return json_diff_path(x, y, path + '[]')
+                return json_diff_path(x, y, path + '[]', owner + '[]')
         return None
     if a != b:
-        return f'{path}: {_cls(a)} value differs'
+        return f'{path}: {_cls(a)} value differs', f'{owner}: {_cls(a)} value differs'
     return None
 
 
@@ -210,15 +215,15 @@ def judge(res, routes=ROUTES):
         if '|' in part:
             g = part.split('|')
             a, b = res[g[0][0]], res[g[1][0]]
+            tail = ''
             if facet == 'model':
                 try:
-                    d = json_diff_path(json.loads(a.json), json.loads(b.json)) or '?'
+                    d, tail = json_diff_path(json.loads(a.json), json.loads(b.json)) or ('?', '?')
                 except ValueError:
-                    d = 'asjson failed on one side'
+                    d = tail = 'asjson failed on one side'
             else:
                 d = _first_text_diff(getattr(a, attr), getattr(b, attr))
-            # mechanism = the partition and the innermost node class/field where the models part
-            tail = d.rsplit('/', 1)[-1] if facet == 'model' else ''
+            # mechanism = the partition and the node class / attribute where the models part
             sig = f'{facet}/{part}/{tail}' if facet == 'model' else f'{facet}/{part}'
             return Verdict(facet, part, sig, f'models differ ({facet}) {part}: {d}')
     return None
